@@ -516,7 +516,7 @@ def _misc_worker(task):
         L = len(r.conn.sent[0]) if r.conn.sent else 0
         normal = W.Resp(r.conn.sent[0]).key() if r.conn.sent else None
         r.close()
-        for s in (None, 0, 1, 8, L - 1, L, L + 1, 2 ** 31 - 1):
+        for s in (None, 0, 1, 8, 64, 128, L // 2, L - 8, L - 1, L, L + 1, 2 ** 31 - 1):
             hdr = {} if s is None else {'max_response_size': s}
             data = W.encode_request(W.build_request(version, [item()], **hdr))
             rr = Run(data)
@@ -550,7 +550,14 @@ def _misc_worker(task):
 def size_items():
     return {'get': lambda: W.p_get('1'), 'query': lambda: W.p_query(list(E.QueryFunction)),
             'locate': lambda: W.p_locate(), 'get_missing': lambda: W.p_get('999'),
-            'get_attributes': lambda: W.p_get_attributes('1')}
+            'get_attributes': lambda: W.p_get_attributes('1'),
+            # answers the session cannot encode the normal way (the fallback it sends instead is subject
+            # to the limit like any other response), and state-changing requests
+            'get_attributes_unset': lambda: W.p_get_attributes('1', ['Contact Information']),
+            'get_attributes_mixed': lambda: W.p_get_attributes('1', ['Name', 'Contact Information', 'State']),
+            'get_attribute_list': lambda: W.p_get_attribute_list('1'),
+            'discover': lambda: W.p_discover(), 'create': lambda: W.p_create(),
+            'activate_missing': lambda: W.p_activate('999')}
 
 
 def run(tier, seed):
